@@ -984,6 +984,30 @@ def _omen_reader_strip(ctx, rule):
     return c07.r5_strip_discipline(ctx, rule, only=c11._OMEN_READERS, floor=4)
 
 
+def r23_cursor_starts(ctx, rule):
+    """The two cursors of the level walk ([level, index] into the LN and IP tables) start at the FIRST entry of a level: wherever a
+    cursor is set from a constant index, that index is 0.  (Mutation sweep: `self.cur_len = [self.start_length, 1]` skipped the first
+    length of the first level, silently.)"""
+    n = 0
+    ok = True
+    for lname, fn in ctx.repo.modules[MCF].funcs.items():
+        if not lname.startswith('MarkovCracker.'):
+            continue
+        q = MCF + '::' + lname
+        for st in walk_local(fn):
+            if isinstance(st, ast.Assign) and len(st.targets) == 1 and U(st.targets[0]) in ('self.cur_len', 'self.cur_ip') \
+                    and isinstance(st.value, (ast.List, ast.Tuple)) and len(st.value.elts) == 2:
+                n += 1
+                ctx.stats['functions'].add(q)
+                idx = st.value.elts[1]
+                if isinstance(const(idx), int) and not isinstance(const(idx), bool) and const(idx) != 0:
+                    ok = False
+                    ctx.bad(rule, q, U(st)[:70], 'a cursor set from a constant starts at entry 0 of its level: every entry before the start '
+                            'index is never combined with anything', None, st, firm=True)
+    if ctx.floor(rule, MCF, n, 3, 'cursor assignments in MarkovCracker') and ok:
+        ctx.ok(rule, MCF, 'the %d cursor assignments use index 0 or the loop position' % n)
+
+
 def r20_omen_config_keys(ctx, rule):
     """The OMEN config is read under the keys it is written under: every (section, option) _load_config reads is one the
     trainer's _save_config sets, none is read with a fallback (a misspelt key would silently give the default - seed C10-ca:
@@ -1092,7 +1116,9 @@ def rules(tier):
             # C09-da: the OMEN tables must decode exactly
             ('C10.R21', _shared_rule('plumbing', 'decode_error_policy')),
             # C10-da: the .omn session file opened 'ab' - a second interruption appends behind the first and load_session reads the stale record
-            ('C10.R22', _shared_rule('plumbing', 'writers_truncate'))]
+            ('C10.R22', _shared_rule('plumbing', 'writers_truncate')),
+            # mutation sweep: the length cursor started at index 1
+            ('C10.R23', _shared_rule('c10', 'r23_cursor_starts'))]
 
 
 META = {
